@@ -1,5 +1,7 @@
 import Proofs.C05.VarInt
 import Proofs.C05.Tx
+import Proofs.C05.PsbtMap
+import Proofs.C05.Misc
 /-!
 # C05 — wire formats are canonical: parse and serialize are mutually inverse
 
@@ -179,6 +181,83 @@ example : exTxW.isSegwit = true ∧ (Tx.ser true exTxW).length = Tx.size true ex
 example : Tx.parse (Tx.ser false exTxW) = .ok (exTxW.strip, []) := by decide
 /-- the shape T1 excludes really fails to round-trip (no input, one output) -/
 example : Tx.parse (Tx.ser true ⟨1, 0, [], [⟨0, []⟩]⟩) ≠ .ok (⟨1, 0, [], [⟨0, []⟩]⟩, []) := by decide
+
+/-! ## BIP32 extended key data -/
+
+theorem xkey_lawful : Lawful xkey := lawful_xkey
+/-- valid key data is exactly 78 bytes: 4 + 1 + 4 + 4 + 32 + 33 -/
+theorem xkey_length_78 (k : XKey) (hv : xkey.valid k) : (xkey.ser k).length = 78 := xkey_length k hv
+theorem xkey_valid_iff (k : XKey) :
+    xkey.valid k ↔ k.version.length = 4 ∧ k.depth < 256 ∧ k.parentFp.length = 4 ∧ k.index < 2 ^ 32
+      ∧ k.chainCode.length = 32 ∧ k.key.length = 33 := xkey_valid k
+example : xkey.parseAll (xkey.ser ⟨[4, 0x88, 0xb2, 0x1e], 3, [1, 2, 3, 4], 0x80000001,
+    List.replicate 32 9, 2 :: List.replicate 32 5⟩) = .ok ⟨[4, 0x88, 0xb2, 0x1e], 3, [1, 2, 3, 4], 0x80000001,
+    List.replicate 32 9, 2 :: List.replicate 32 5⟩ := by decide
+
+/-! ## PSBT map layer (BIP174 leaves the key order free) -/
+open Btc.Psbt
+
+/-- T5a: `deserialize_map(serialize(m) ‖ rest) = (m, rest)` for every map with non-empty, pairwise
+    distinct keys (keys and values within `var_int.MAX_SIZE`), in any record order. -/
+theorem psbt_map_parse_serialize (recs : List Rec) (rest : Bytes) (hv : ValidRecs recs) :
+    parseMap (serMap recs ++ rest) = .ok (recs, rest) := parseMap_serMap recs rest hv
+
+/-- T5b: whatever `deserialize_map` accepts is exactly the serialization, in order, of the records it
+    returns (closed by `00`), followed by what it left; a duplicated key is never accepted. -/
+theorem psbt_map_serialize_parse (b : Bytes) (recs : List Rec) (rest : Bytes)
+    (hp : parseMap b = .ok (recs, rest)) : ValidRecs recs ∧ b = serMap recs ++ rest :=
+  serMap_parseMap b recs rest hp
+
+/-- T5c: re-serializing a parsed map in the emission order (any ranking of the field types, then key
+    octets) keeps every key-value pair, unknown ones included: the records of the output are a
+    permutation of the records of the input. -/
+theorem psbt_norm_keeps_every_pair (rank : Bytes → Nat) (b b' rest : Bytes)
+    (h : norm rank b = .ok (b', rest)) :
+    ∃ recs recs', parseMap b = .ok (recs, rest) ∧ parseMap b' = .ok (recs', []) ∧ recs'.Perm recs := by
+  unfold norm at h
+  split at h
+  · cases h
+  · rename_i recs r hp
+    cases h
+    have ⟨hv, _⟩ := serMap_parseMap _ _ _ hp
+    refine ⟨recs, sortRecs rank recs, hp, ?_, sortRecs_perm rank recs⟩
+    have := parseMap_serMap (sortRecs rank recs) [] (validRecs_perm (sortRecs_perm rank recs).symm hv)
+    simpa using this
+
+/-- T5d: the re-serialization is a fixed point after one round. -/
+theorem psbt_norm_fixed_point (rank : Bytes → Nat) (b b' rest : Bytes)
+    (h : norm rank b = .ok (b', rest)) : norm rank b' = .ok (b', []) := by
+  unfold norm at h
+  split at h
+  · cases h
+  · rename_i recs r hp
+    cases h
+    have ⟨hv, _⟩ := serMap_parseMap _ _ _ hp
+    have := parseMap_serMap (sortRecs rank recs) [] (validRecs_perm (sortRecs_perm rank recs).symm hv)
+    simp only [List.append_nil] at this
+    unfold norm
+    rw [this]
+    simp only [sortRecs_idem]
+
+/-- T5e: the result does not depend on the order the records came in. -/
+theorem psbt_norm_order_independent (rank : Bytes → Nat) (a c : List Rec) (rest : Bytes)
+    (hv : ValidRecs a) (hperm : a.Perm c) :
+    norm rank (serMap a ++ rest) = norm rank (serMap c ++ rest) := by
+  unfold norm
+  rw [parseMap_serMap a rest hv, parseMap_serMap c rest (validRecs_perm hperm hv)]
+  simp only [sortRecs_perm_eq rank hperm hv.2]
+
+-- non-vacuity: a map with an unknown record (fc…), a sighash-type record whose value is zero, and
+-- two derivations out of order
+def exMap : Bytes :=
+  [2, 0xfc, 9, 1, 5,   1, 3, 4, 0, 0, 0, 0,   2, 6, 2, 1, 7,   2, 6, 1, 1, 8,   0]
+example : parseMap (exMap ++ [9]) =
+    .ok ([([0xfc, 9], [5]), ([3], [0, 0, 0, 0]), ([6, 2], [7]), ([6, 1], [8])], [9]) := by decide
+-- emission order: sighash type (03) before derivations (06 01 < 06 02) before the unknown record
+example : recLe inRank ([3], [0, 0, 0, 0]) ([6, 1], [8]) = true ∧ recLe inRank ([6, 1], [8]) ([6, 2], [7]) = true
+    ∧ recLe inRank ([6, 2], [7]) ([0xfc, 9], [5]) = true ∧ recLe inRank ([0xfc, 9], [5]) ([10, 1], []) = true := by
+  decide
+example : parseMap [1, 3, 1, 0, 1, 3, 1, 1, 0] = .error .dupKey := by decide
 
 -- non-vacuity (CompactSize): the hypotheses are met by concrete non-trivial values on each width
 example : Gen.VarInt.serialize 252 = .ok [252] := by decide
